@@ -53,7 +53,7 @@ def kind_opt(key, v):
     if key == "indent":
         return "indent=%d" % v
     kind = key.split("@")[0]
-    if kind in ("b", "g", "o", "d") and v // 8 < len(TRIV):
+    if kind in ("b", "g", "o", "d", "f", "h") and v // 8 < len(TRIV):
         # gaps mask / trivia sequence (T end-of-line comment, C comment line, B blank line)
         return "%s=%d/%s" % (kind, v % 8, "".join(TRIV[v // 8]) or "-")
     return "%s=%d" % (kind, v)
